@@ -569,7 +569,8 @@ func (self *Value) updateByteLen(originLen int, address []int, isPacked bool, pa
 			newLength := int(length) + diffLen
 			newBytes = protowire.AppendVarint(newBytes, uint64(newLength))
 			// length == 0 means had been deleted all the data in the field
-			if newLength == 0 {
+			// (only a packed list goes with its last element: a message that has become empty is still present)
+			if newLength == 0 && previousType == proto.LIST {
 				newBytes = newBytes[:0]
 			}
 
@@ -584,7 +585,7 @@ func (self *Value) updateByteLen(originLen int, address []int, isPacked bool, pa
 
 			// split length
 			srcHead := rt.AddPtr(self.v, uintptr(addressPtr+tagOffset))
-			if newLength == 0 {
+			if newLength == 0 && previousType == proto.LIST {
 				// delete tag
 				srcHead = rt.AddPtr(self.v, uintptr(addressPtr))
 				subLen -= tagOffset
